@@ -254,3 +254,24 @@ func (ld *Loaded) exprTextAt(pos token.Pos) string {
 	}
 	return fmt.Sprintf("%s:%d", filepath.Base(p.Filename), p.Line)
 }
+
+// methodOf finds the method `name` of type t (or *t).
+func (ld *Loaded) methodOf(t types.Type, name string) *ssa.Function {
+	for _, tt := range []types.Type{t, types.NewPointer(t)} {
+		ms := ld.prog.MethodSets.MethodSet(tt)
+		for i := 0; i < ms.Len(); i++ {
+			if ms.At(i).Obj().Name() == name {
+				return ld.prog.MethodValue(ms.At(i))
+			}
+		}
+	}
+	if pt, ok := t.Underlying().(*types.Pointer); ok {
+		ms := ld.prog.MethodSets.MethodSet(pt.Elem())
+		for i := 0; i < ms.Len(); i++ {
+			if ms.At(i).Obj().Name() == name {
+				return ld.prog.MethodValue(ms.At(i))
+			}
+		}
+	}
+	return nil
+}
